@@ -1,0 +1,31 @@
+package caddyconfig
+
+import (
+	"net/http"
+	"net/http/httptest"
+	"strings"
+	"testing"
+)
+
+type warnAdapter struct{}
+
+// Adapt wraps nothing: it hands back a config that cannot be loaded, with one warning.
+func (warnAdapter) Adapt(body []byte, _ map[string]any) ([]byte, []Warning, error) {
+	return []byte(`{"apps":{"no_such_app":{}}}`), []Warning{{File: "x", Line: 1, Message: "be warned"}}, nil
+}
+
+// A load that is rejected must not be answered 200, also when the adapter emitted warnings.
+func TestLoadRejectedAfterWarningsIsNotOK(t *testing.T) {
+	RegisterAdapter("warntest", warnAdapter{})
+	req := httptest.NewRequest(http.MethodPost, "/load", strings.NewReader("anything"))
+	req.Header.Set("Content-Type", "text/warntest")
+	rec := httptest.NewRecorder()
+	err := adminLoad{}.handleLoad(rec, req)
+	if err == nil {
+		t.Fatalf("a config naming an unknown app was loaded")
+	}
+	// handleError would now call WriteHeader(400): too late if the body has been started
+	if rec.Body.Len() > 0 {
+		t.Fatalf("response body was started (status committed to %d) before the load failed: %q", rec.Code, rec.Body.String())
+	}
+}
